@@ -414,9 +414,17 @@ func runRmpad(nc int, e []byte) (r result) {
 	case err != nil:
 		r.impl = "err"
 		r.label("rmpad:err")
+		// a complete description according to the format must be accepted
+		// (and cut at its end) whatever follows it
+		if n, ok := specLen(nc, e); ok {
+			r.failf("c11-removepadding-rejects", "the first %d of %d bytes are a complete simple-glyph description (%d contours) but removePadding returns an error: %v", n, len(e), nc, err)
+		}
 	default:
 		r.impl = vlib.Str(vlib.L(vlib.Atom("ok"), vlib.Hex(out)))
 		r.label("rmpad:ok")
+		if n, ok := specLen(nc, e); ok && n != len(out) {
+			r.failf("c11-removepadding", "the description occupies %d bytes, removePadding keeps %d", n, len(out))
+		}
 		if len(out) > len(e) || !bytes.Equal(out, e[:len(out)]) {
 			r.failf("c11-removepadding", "result is not a prefix of the input")
 			return
